@@ -8,6 +8,7 @@ import (
 	"sort"
 	"strings"
 	"sync/atomic"
+	"time"
 
 	"golang.org/x/tools/go/ssa"
 )
@@ -90,7 +91,7 @@ type Path struct {
 	chooseN        int // number of non-forced choose decisions (shape)
 	stdout         value
 	tzShift        map[*Term]*Term // instants read in the local zone -> the UTC instant with the same wall-clock reading
-	onSend         value // verifOnSend: the consumer's reaction, run at every send of the producer
+	onSend         value           // verifOnSend: the consumer's reaction, run at every send of the producer
 	inSendHook     bool
 	goN            int // goroutines started by the code under test on this path
 	sigpipeIgnored bool
@@ -156,6 +157,11 @@ func (in *Interp) setFact(c *Term, v bool) {
 }
 
 func (in *Interp) solve(kind string, extra []*Term, want []*Term) (Verdict, map[*Term]ModelVal) {
+	if !in.cfg.Deadline.IsZero() && time.Now().After(in.cfg.Deadline) {
+		// the run's deadline has passed in the middle of a path (a path that keeps the solver busy
+		// query after query): end it; it is reported as not explored
+		panic(budgetExceeded{"run deadline"})
+	}
 	return in.solver.Check(kind, in.path.pc, extra, want)
 }
 
